@@ -174,6 +174,12 @@ func (fr *Frame) doCallWith(c *ssa.CallCommon, instr ssa.Instruction, fnVal Val,
 			vc.UsedAssumed["contract on function-valued field "+name] = true
 			break
 		}
+		if fr.calleeDeclaredPure(name) {
+			vc.UsedAssumed["call "+name+" in "+FuncKey(fr.fn)+" assumed to have no heap effect (callee ... pure)"] = true
+			res = vc.freshResult("dyn", rt)
+			fr.assumeAliveResult(st, pc, res)
+			break
+		}
 		if n, ok := c.Value.Type().(*types.Named); ok && n.Obj().Pkg() != nil && n.Obj().Pkg().Path() == "context" && n.Obj().Name() == "CancelFunc" {
 			// a context.CancelFunc only cancels its context: no effect on the program's heap
 			vc.UsedAssumed["context.CancelFunc has no heap effect"] = true
@@ -220,6 +226,19 @@ func (fr *Frame) doCallWith(c *ssa.CallCommon, instr ssa.Instruction, fnVal Val,
 		}
 	}
 	return res, npc
+}
+
+func (fr *Frame) calleeDeclaredPure(name string) bool {
+	fc := fr.vc.E.Contracts[FuncKey(fr.fn)]
+	if fc == nil {
+		return false
+	}
+	for _, c := range fc.Clauses {
+		if c.Kind == "calleepure" && nameMatches(c.Callee, name) {
+			return true
+		}
+	}
+	return false
 }
 
 func (fr *Frame) rootFrame() *Frame {
